@@ -47,6 +47,18 @@ func cmdLeafLaws(args []string) error {
 		if len(q) < 2 || q[0] != '"' || q[len(q)-1] != '"' {
 			fail("quote_shape", fmt.Sprintf("id=%x quoted=%s", id, q))
 		}
+		// quote_scans (QuoteScans): scanning the printed ID from after its opening quote, a backslash taking the next byte
+		// with it, stops exactly at the closing quote — what triple.Parse relies on to find the end of the predicate's ID
+		k := 1
+		for k < len(q) && q[k] != '"' {
+			if q[k] == '\\' {
+				k++
+			}
+			k++
+		}
+		if k != len(q)-1 {
+			fail("quote_scans", fmt.Sprintf("id=%x quoted=%s scan stops at %d", id, q, k))
+		}
 		noSpace := true
 		for j := 0; j < len(id); j++ {
 			if reSpace(id[j]) {
